@@ -191,8 +191,8 @@ func (g *zzC19Gen) value() slip.Object {
 			g.htBadVal = true
 		}
 		return list
-	case '[', '<', '^':
-		end := map[byte]byte{'[': ']', '<': '>', '^': '$'}[c]
+	case '[', '<', '^', '&':
+		end := map[byte]byte{'[': ']', '<': '>', '^': '$', '&': '$'}[c]
 		var list slip.List
 		g.quoted++
 		g.depth++
@@ -215,6 +215,10 @@ func (g *zzC19Gen) value() slip.Object {
 		if c == '^' {
 			g.fillPtr = g.fillPtr || !literal
 			v.FillPtr = len(list) - 1
+		}
+		if c == '&' { // fill pointer at the end: a full stack, (make-array n :fill-pointer t)
+			g.fillPtr = g.fillPtr || !literal
+			v.FillPtr = len(list)
 		}
 		return v
 	case '#':
@@ -417,6 +421,7 @@ var zzC19Shapes = []string{
 	/* 80 */ "([i]{Yi})", "(i[i].{Yi})", "((i)[(i)]i)", "{Yc}", "{Yb}", "{Yr}", "{Yf}", "(ci)", "(es)", "(r.r)",
 	/* 90 (thorough) */ "(i(s(i(s))))", "((i.s)(s.i)(n.i))", "(iiiiiiii)", "(ssss.s)", "[(i[s(i)])]", "#2x2x2iiiiiiii;", "#3x2(i)[s]{Yi}nts;", "{YiYsYnYtYbYr}", "{SiSsIiIs}", "(b(B(r(c))))",
 	/* 100 */ "((((i))).i)", "[[[i]]]", "(k.k)", "{kikskn}", "(i.b)", "(b.i)", "{Y[]}", "{Y<i>}", "(^iii$)", "([]<i>^ii$)",
+	/* 110 */ "&ii$", "&i$", "(&is$i)", "&$",
 }
 
 // VerifC19LoadForm: for the value of the given shape, evaluating the load
